@@ -147,6 +147,9 @@ type Check struct {
 	// again after the recorded predecessor calls.
 	Spice     []string
 	SpiceCall func(s string)
+	// ColdStartVerify, when set, runs in every cold-start child after the
+	// concurrent first calls; a non-empty result is a violation observed there.
+	ColdStartVerify func() string
 }
 
 // Report is what a runner process hands to the driver.
